@@ -32,7 +32,9 @@ ENC_FRAMING = [(E, 'ber.encoder::AbstractItemEncoder.encodeTag'), (E, 'ber.encod
 ENC_CONTENT = [(E, 'ber.encoder::BooleanEncoder.encodeValue'), (E, 'cer.encoder::BooleanEncoder.encodeValue'),
                (E, 'ber.encoder::NullEncoder.encodeValue'), (E, 'ber.encoder::IntegerEncoder.encodeValue'),
                (E, 'ber.encoder::ObjectIdentifierEncoder.encodeValue'),
-               (E, 'ber.encoder::SequenceEncoder.encodeValue[value-object]')]
+               (E, 'ber.encoder::SequenceEncoder.encodeValue[value-object]'),
+               (E, 'ber.encoder::OctetStringEncoder.encodeValue[value-object]'),
+               (E, 'ber.encoder::SequenceOfEncoder._encodeComponents[value-object]')]
 INTS = [(IN, 'compat.integer::to_bytes[signed]'), (IN, 'compat.integer::to_bytes[unsigned,length]'),
         (IN, 'compat.integer::from_bytes[signed]'), (IN, 'compat.integer::from_bytes[unsigned]')]
 READS = [(ST, 'codec.streaming::readFromStream[complete]'), (ST, 'codec.streaming::readFromStream[partial]'),
@@ -192,7 +194,8 @@ import contracts.constraint as _cn
 CONSTRAINTS = [(CN, c.id) for c in _cn.CONTRACTS]
 CER = [(CE, 'cer.encoder::GeneralizedTimeEncoder.encodeValue[no-fraction]'),
        (CE, 'cer.encoder::UTCTimeEncoder.encodeValue[no-fraction]'), (CE, 'cer.encoder::SetEncoder._tagSortKey')]
-PROPS['C03']['contracts'] = PROPS['C03']['contracts'] + CER
+PROPS['C03']['contracts'] = PROPS['C03']['contracts'] + CER + [(CE, 'cer.encoder::SequenceOfEncoder.encodeValue')]
+PROPS['C02']['contracts'] = PROPS['C02']['contracts'] + [(CE, 'cer.encoder::SequenceOfEncoder.encodeValue')]
 
 PROPS['C04'] = prop(
     level_text='Canonical SET order is a function of the outermost tags only (contract on the sort key, proved), framing and '
@@ -325,7 +328,7 @@ PROPS['C13']['level_text'] = ('Identifier octets equal X.690 8.1.2 for every cla
                               'contract of encode); the tag algebra is proved on the real TagSet methods: implicit tagging replaces '
                               'exactly the outermost tag and keeps its form, explicit tagging adds one constructed tag and refuses '
                               'UNIVERSAL. Accept/reject against perturbed types and whole stacks are a bounded stand-in.')
-PROPS['C04']['contracts'] = PROPS['C04']['contracts'] + ENC_CONTENT[5:]
+PROPS['C04']['contracts'] = PROPS['C04']['contracts'] + ENC_CONTENT[5:6]
 UN = 'contracts.univ_native'
 CHOICE = [(UN, 'type.univ::Choice.setComponentByPosition'), (UN, 'type.univ::Choice.clear'), (UN, 'type.univ::Choice.reset')]
 PROPS['C19']['contracts'] = CHOICE
